@@ -30,7 +30,7 @@ open PyGql PyGql.Differ PyGql.Diff PyGql.Validate PyGql.Validate.Spec
 /-- `t'` is at least as permissive as `t`; the two are equal or `t` is well formed -/
 def TyLoose (t t' : Ty) : Prop := sub t t' = true ∧ (t = t' ∨ t.wf = true)
 
-theorem TyLoose.refl (t : Ty) : TyLoose t t := ⟨sub_refl' t, Or.inl rfl⟩
+theorem TyLoose.refl (t : Ty) : TyLoose t t := ⟨sub_refl_in t, Or.inl rfl⟩
 
 theorem itemOf_base (t : Ty) : (TI.itemOf t).base = t.base := by
   cases t with
